@@ -111,7 +111,7 @@ def wait(process, limit=90):
 def read_log(evlog):
     """-> effects before the (first) signal, after it, executed lines, the signal record, the second death,
     the number of lines executed when the lock was taken"""
-    pre, post, lines, kill, kill2, lock_n, body_n, pre_n, child = [], [], [], None, None, None, None, [], []
+    pre, post, lines, kill, kill2, lock_n, body_n, pre_n, child, mid = [], [], [], None, None, None, None, [], [], None
     for line in (evlog.read_text().splitlines() if evlog.exists() else []):
         tag, _, rest = line.partition(" ")
         if tag == "L":
@@ -125,6 +125,8 @@ def read_log(evlog):
                 kill2 = rec
         elif tag == "CE":
             child.append(rest)
+        elif tag == "M":
+            mid = dict(done=rest[0] == "1", failed=rest[1] == "1", pid=rest[2] == "1")
         elif tag == "E":
             (post if kill else pre).append(rest)
             if not kill:
@@ -133,15 +135,15 @@ def read_log(evlog):
                 lock_n = len(lines)
             if rest == "BodyBegin" and body_n is None:
                 body_n = len(lines)
-    return pre, post, lines, kill, kill2, lock_n, body_n, pre_n, child
+    return pre, post, lines, kill, kill2, lock_n, body_n, pre_n, child, mid
 
 
 def record(job, evlog, l, rc, hung):
-    pre, post, lines, kill, kill2, lock_n, body_n, pre_n, child = read_log(evlog)
+    pre, post, lines, kill, kill2, lock_n, body_n, pre_n, child, mid = read_log(evlog)
     out = dict(mode=l["mode"], sig=l.get("sig"), n=l.get("n") or 0, fired=kill is not None,
                ctx=kill["ctx"] if kill else None, at=kill["at"] if kill else None,
                killed_again=kill2 is not None, at2=kill2["at"] if kill2 else None,
-               pre=pre, post=post, child=child, rc=rc, nlines=len(lines), hung=hung or rc == 97)
+               pre=pre, post=post, child=child, mid=mid, eoj=l.get("eoj"), rc=rc, nlines=len(lines), hung=hung or rc == 97)
     if l.get("ref"):
         out["lines"] = lines
         out["lock_n"] = lock_n   # number of executed lines when the lock was taken (the last one calls lock.acquire)
@@ -152,10 +154,24 @@ def record(job, evlog, l, rc, hung):
     return out
 
 
+def notifications(job, how):
+    """The job's .notifications folder as a scheduler's add_notification_server leaves it: empty; one entry naming a
+    server that refuses the connection (`refused`: report_eoj logs a warning); one entry that cannot be read as text
+    (`garbage`, a torn file: Reporter.check_urls, hence report_eoj, raises)."""
+    d = job["path"] / ".notifications"
+    if d.is_dir():
+        for f in d.iterdir():
+            f.unlink()
+    if how:
+        d.mkdir(exist_ok=True)
+        (d / "c10").write_bytes(b"\xff\xfe\x00 torn" if how == "garbage" else b"http://127.0.0.1:9/c10")
+
+
 def launch(job, k, l, env):
     if l.get("waiter"):
         return launch_double(job, k, l, env)
     evlog = job["path"] / f"events.{k}.log"
+    notifications(job, l.get("eoj"))
     process = start(job, evlog, l["mode"], l.get("sig"), l.get("n"), env, j2=l.get("kill_after"))
     rc, hung = wait(process)
     out = record(job, evlog, l, rc, hung)
@@ -196,6 +212,7 @@ def launch_double(job, k, l, env):
     evh, evw = job["path"] / f"events.{k}.log", job["path"] / f"events.{k}.w.log"
     if evw.exists():
         evw.unlink()
+    notifications(job, None)
     ph = start(job, evh, l["mode"], l.get("sig"), l.get("n"), env, hold=latch)
     in_body = wait_for(lambda: evh.exists() and "E BodyBegin" in evh.read_text(), ph, 90)
     wrec = None
